@@ -16,6 +16,35 @@ struct TestError : std::exception {
     explicit TestError(int c) : code(c) {}
 };
 
+// item type with an observable lifetime: destruction and being moved from both poison the object, so an item that was
+// taken from a dead or emptied element shows up as -7777 (and a live-instance counter must return to zero)
+static long g_item_live;
+struct Item {
+    int v, chk;
+    explicit Item(int x) : v(x), chk(~x) { ++g_item_live; }
+    Item(Item &&o) noexcept : v(o.get()), chk(~v) {
+        ++g_item_live;
+        o.poison();
+    }
+    Item &operator=(Item &&o) noexcept {
+        v = o.get();
+        chk = ~v;
+        o.poison();
+        return *this;
+    }
+    Item(const Item &) = delete;
+    ~Item() {
+        --g_item_live;
+        poison();
+    }
+    void poison() {
+        volatile int *p = &v, *q = &chk;
+        *p = -7777;
+        *q = 0;
+    }
+    int get() const { return chk == ~v ? v : -7777; }
+};
+
 enum Op { PUSH = 0, POP = 1, UNBLOCK = 2, NOPS = 3 };
 static const char *op_names[] = {"push", "pop", "unblock_push"};
 
@@ -97,9 +126,10 @@ static void run_case(seqx::Runner &R, size_t limit, const std::vector<int> &seq)
     {
         Model m;
         m.limit = limit;
-        auto q = std::make_unique<cocls::limited_queue<int>>(limit);
+        g_item_live = 0;
+        auto q = std::make_unique<cocls::limited_queue<Item>>(limit);
         std::vector<std::unique_ptr<cocls::future<void>>> pushes;
-        std::vector<std::unique_ptr<cocls::future<int>>> pops;
+        std::vector<std::unique_ptr<cocls::future<Item>>> pops;
         int next_val = 1;
         auto compare = [&](size_t step) {
             for (size_t i = 0; i < pushes.size(); i++) {
@@ -132,7 +162,7 @@ static void run_case(seqx::Runner &R, size_t limit, const std::vector<int> &seq)
                 if (rdy) {
                     int v = -1;
                     try {
-                        v = pops[i]->value();
+                        v = pops[i]->value().get();
                     } catch (...) {
                         v = -2;
                     }
@@ -157,9 +187,9 @@ static void run_case(seqx::Runner &R, size_t limit, const std::vector<int> &seq)
             R.step();
             if (op == PUSH) {
                 int v = next_val++;
-                pushes.emplace_back(new cocls::future<void>(q->push(v)));
+                pushes.emplace_back(new cocls::future<void>(q->push(Item(v))));
             } else if (op == POP) {
-                pops.emplace_back(new cocls::future<int>(q->pop()));
+                pops.emplace_back(new cocls::future<Item>(q->pop()));
             } else {
                 bool r = q->unblock_push(std::make_exception_ptr(TestError(7)));
                 if ((int)r != exp) {
@@ -191,6 +221,7 @@ static void run_case(seqx::Runner &R, size_t limit, const std::vector<int> &seq)
         R.outcome(seqx::mix(m.items.size(), m.blocked.size() * 16 + m.waiters.size()));
     }
     if (!R.case_fail && seqx::live_allocs() != base) R.fail("lq/allocation-balance", "%ld allocations not released", (long)(seqx::live_allocs() - base));
+    if (!R.case_fail && g_item_live != 0) R.fail("lq/item-lifetime", "%ld items still alive (or destroyed twice) after teardown", g_item_live);
     R.end(true);
 }
 
